@@ -117,16 +117,15 @@ def dynamic_part(run, tier, scr):
                 run.violation("ro-image:selftest(%s)" % tag, {"what": "the read-only-image detector did not report the three canary stores "
                                                                         "(c19_canary.c) exactly: it cannot be trusted on this platform", "seen": ro["selftest"]}, no_input=True)
             run.count("dyn:ro:crash-recovered(not C19)", len(ro["crashes"]))
-            # probes of the open finding C19-oer-entry-null-codec (a crash of the unchanged library, recovered; not a reentrancy matter)
+            # probes of library entry points in a recovery scope of their own (oer_decode()/oer_encode() on a type without an OER
+            # codec: they called the NULL slot until the repair of C19-oer-entry-null-codec): every probe must survive
             info["ro"]["probes"] = ro["probes"]
             for pr in ro["probes"]:
+                run.count("dyn:ro:probe:%s:%s" % (pr["probe"], "survived" if pr["sig"] is None else "signal"))
                 if pr["sig"] is None:
                     continue
-                if any(f["id"] == "C19-oer-entry-null-codec" for f in run.findings) and pr["probe"] == "oer-null-codec" and pr["sig"] == 11:
-                    run.known_finding("C19-oer-entry-null-codec", "%s:%s" % (pr["type"], pr["op"]))
-                else:
-                    run.violation("crash:%s(%s:%s)" % (pr["probe"], tag, pr["type"]),
-                                  {"what": "a probe of a library entry point ended in signal %s" % pr["sig"], "probe": pr, "asn1c_options": v["opts"]})
+                run.violation("crash:%s(%s:%s)" % (pr["probe"], tag, pr["type"]),
+                              {"what": "a probe of a library entry point ended in signal %s" % pr["sig"], "probe": pr, "asn1c_options": v["opts"]})
             # every table reachable from a descriptor (specifics and the maps behind them included) lies inside the watched image
             info["ro"]["descriptor_parts"] = ro["parts"]
             info["ro"]["calls_per_operation"] = dict(sorted(ro["ops"].items()))
@@ -413,7 +412,7 @@ def main(tier):
                        "`dynamic.shapes.missing` lists sides without a type, `dynamic.gcov` (thorough tier) the functions never executed and the branches never taken)",
                        "not exercised: allocation failure (C14's harness injects it), compare with a NULL operand (BIT_STRING_compare crashes), ber_tlv_tag_string / "
                        "asn_bit_data_string (documented static-buffer debug helpers), -DASN_DEBUG builds, -fno-constraints (asn_check_constraints calls a NULL checker for "
-                       "reference types), oer_decode()/oer_encode() on types without an OER codec (open finding C19-oer-entry-null-codec: probed, not part of the battery)",
+                       "reference types)",
                        "random() is replaced by a thread-local generator in the harness: asn_random_fill's use of libc's shared random state is outside the property",
                        "TSan suppressions (harness/c19_tsan.supp): glibc's tz state behind its internal tzset_lock, reached through mktime()"],
                    "notes": run.notes},
